@@ -9,12 +9,12 @@ Variable fits : N -> N -> bool.
 
 (* what recovery checks beyond "newest pair" *)
 Definition geom_ok (sl : slots) (f p : nat) : Prop :=
-  exists hf hp, hd_at sl f hf /\ hd_at sl p hp /\ hsize hp = hsize hf /\ fits (hsize hf) (hcount hf) = true.
+  exists hf hp, hd_at sl f hf /\ hd_at sl p hp /\ hsize hp = hsize hf /\ fits (hsize hf) (hcount hf) = true /\ (hcount hp <= 2048)%N.
 
 Lemma newest_pair_recovered sl f p : seq_distinct (indexed sl) -> newest_pair sl f p -> geom_ok sl f p ->
   fst (recover_inner fits sl) = Some (f, p).
 Proof.
-  intros SD (hf & hp & Hf & Hp & Af & Ap & Kf & Kp & Nfp & Lt & Oth) (hf' & hp' & Hf' & Hp' & Esz & Fit).
+  intros SD (hf & hp & Hf & Hp & Af & Ap & Kf & Kp & Nfp & Lt & Oth) (hf' & hp' & Hf' & Hp' & Esz & Fit & Cap).
   rewrite <- (hd_at_fun _ _ _ _ Hf Hf') in *. rewrite <- (hd_at_fun _ _ _ _ Hp Hp') in *. clear hf' hp' Hf' Hp'.
   pose proof (two_newest_top2 sl SD) as T. unfold recover_inner.
   assert (If : In (f, hf) (indexed sl)) by (apply indexed_iff; exact Hf).
@@ -34,7 +34,7 @@ Proof.
   assert (Es : s2' = (f, hf)).
   { assert (Q : (hseq (snd (f, hf)) <= hseq (snd s2'))%N) by (apply Hs2m; [exact If| intros C; inversion C; congruence]).
     cbn [snd] in Q. destruct (CLS s2' Hs2) as [->|[->|C]]; [reflexivity| contradiction| lia]. }
-  subst s2'. unfold is_awip, kind_is_fw. rewrite Af, Ap, Kf, Kp, Esz, N.eqb_refl, Fit. reflexivity.
+  subst s2'. unfold is_awip, kind_is_fw. apply N.leb_le in Cap. rewrite Af, Ap, Kf, Kp, Esz, N.eqb_refl, Fit, Cap. reflexivity.
 Qed.
 
 Definition lstate := (slots * option (nat * nat))%type.
@@ -46,7 +46,7 @@ Inductive lstep : lstate -> lstate -> Prop :=
 | ls_e2 sl l a b s1 s2 : nowrap sl -> alloc_repaired sl = Ok (a, b, s1, s2) -> lstep (sl, l) (setnth (setnth sl a None) b None, None)
 | ls_h1 sl l a b s1 s2 sz cnt : nowrap sl -> alloc_repaired sl = Ok (a, b, s1, s2) ->
     lstep (sl, l) (setnth (setnth sl a (Some (mkhdr Firmware s1 sz cnt EInProgress IInProgress Untested))) b None, None)
-| ls_start sl l a b s1 s2 sz cnt cap : nowrap sl -> alloc_repaired sl = Ok (a, b, s1, s2) -> fits sz cnt = true ->
+| ls_start sl l a b s1 s2 sz cnt cap : nowrap sl -> alloc_repaired sl = Ok (a, b, s1, s2) -> fits sz cnt = true -> (cap <= 2048)%N ->
     lstep (sl, l) (setnth (setnth sl a (Some (mkhdr Firmware s1 sz cnt EInProgress IInProgress Untested))) b
                           (Some (mkhdr Parity s2 sz cap EInProgress IInProgress Untested)), Some (a, b))
 | ls_abort sl l i h : hd_at sl i h -> ext_inprogress h = true -> lstep (sl, l) (setnth sl i (Some (with_ext h EAborted)), lkeep i l)
@@ -122,7 +122,7 @@ Proof.
     + intros f p Q. inversion Q; subst f p. split.
       * exists h1, h2. repeat (split; [first [assumption| reflexivity]|]). cbn [h1 hseq]. intros j sj Nja Njb Sj.
         rewrite seqat_two in Sj by assumption. destruct (Nat.eqb_spec j b); [contradiction|]. destruct (Nat.eqb_spec j a); [contradiction|]. apply (Hoth j sj Nja Njb Sj).
-      * exists h1, h2. split; [exact Ha|]. split; [exact Hb|]. split; [reflexivity| exact H1].
+      * exists h1, h2. split; [exact Ha|]. split; [exact Hb|]. split; [reflexivity|]. split; [exact H1| assumption].
   - apply (LI_upd sl l (lkeep i l) i h (with_ext h EAborted) L H eq_refl). apply lkeep_some.
   - apply (LI_upd sl l (lkeep i l) i h (with_ext h EComplete) L H eq_refl). apply lkeep_some.
   - apply (LI_upd sl l l i h h' L H H1). intros f p E. split; [exact E|].
